@@ -2,7 +2,7 @@
    Statements only; proofs in Proofs/ItsFacts.v (repaired source: fixed F-C20-1, F-C20-2). *)
 From Coq Require Import String List NArith Lia Bool.
 From Ax Require Import Lib.Bytes Lib.Mvx Lib.SolAbi Lib.Keccak Model.Check Model.Env Model.Gateway Model.TokenManager Model.Its
-     Proofs.GatewayMsgs Proofs.TMFacts Proofs.ItsFacts Proofs.ItsWorld Proofs.ItsMore Gen.Generated.
+     Proofs.GatewayMsgs Proofs.TMFacts Proofs.ItsFacts Proofs.ItsWorld Proofs.ItsMore Proofs.ItsRoles Gen.Generated.
 Import ListNotations.
 Open Scope N_scope.
 
@@ -34,10 +34,27 @@ Section C20.
   Theorem c20_flow_limits_operator_only : forall w c ids ls w' ev, set_flow_limits w c ids ls = Some (w', ev) ->
     intersects (iroles (iw_its w) (ic_caller c)) OPERATOR = true.
   Proof. exact set_flow_limits_operator_only. Qed.
+
+  (* over EVERY operation of the world (all 25 kinds, asynchronous steps included): an account that does not hold the
+     service's operator role comes to hold it only because a holder transfers it to that account, or because the account
+     accepts a proposal a holder made to exactly it; nothing else touches the role table (Proofs/ItsRoles.v: istep_roles_frame) *)
+  Theorem c20_operator_gain : forall w o a,
+    is_op (iw_its (fst (istep H verify w o))) a = true -> is_op (iw_its w) a = false ->
+    (exists c, o = ITransferOp c a /\ is_op (iw_its w) (ic_caller c) = true) \/
+    (exists c from, o = IAcceptOp c from /\ ic_caller c = a /\ iproposed (iw_its w) from a = OPERATOR /\ is_op (iw_its w) from = true).
+  Proof. exact (operator_gain H verify). Qed.
+  Theorem c20_roles_frame : forall w o,
+    match o with
+    | ITransferOp _ _ | IProposeOp _ _ | IAcceptOp _ _ => True
+    | _ => rs w (fst (istep H verify w o))
+    end.
+  Proof. exact (istep_roles_frame H verify). Qed.
 End C20.
 Print Assumptions c20_paused_frame.
 Print Assumptions c20_pause_owner_only.
 Print Assumptions c20_flow_limits_operator_only.
+Print Assumptions c20_operator_gain.
+Print Assumptions c20_roles_frame.
 
 (* the endpoint table regenerated from the sources: a new or re-annotated endpoint breaks this pin *)
 Example pin_its_endpoints : gen_its_endpoints =
@@ -50,3 +67,4 @@ Example pin_its_endpoints : gen_its_endpoints =
 Example pin_pause_gates : gen_its_pause_gated_fns = ["call_contract_with_interchain_token"; "deploy_interchain_token"; "deploy_interchain_token_raw";
    "deploy_remote_interchain_token_raw"; "execute"; "interchain_transfer"; "link_token_raw"; "register_custom_token_raw"]%string := eq_refl.
 Check c20_paused_frame.
+Check c20_operator_gain.
